@@ -155,6 +155,10 @@ def _candidates(plan):
             c = P(plan)
             c["files"][fname].pop("given")
             yield f"{fname} given with extension", c
+    if plan.get("strip_final_newline"):
+        c = P(plan)
+        c.pop("strip_final_newline")
+        yield "keep the final newline", c
     if plan.get("stale_buffer"):
         c = P(plan)
         c.pop("stale_buffer")
